@@ -32,9 +32,20 @@ def recording():
         orig[(cls, name)] = getattr(cls, name)
         setattr(cls, name, fn)
 
+    # the statement label of the current line, as the parse loop computed it (strip_line_label is called once per statement)
+    o_strip = P.strip_line_label
+
+    def w_strip(line):
+        r = o_strip(line)
+        rec["label"] = r[1]
+        return r
+    P.strip_line_label = w_strip
+    rec["_restore_strip"] = o_strip
     o_end = FF.parse_end_scope_word
 
     def w_end(self, line, ln, file_ast, match):
+        from fortls.constants import DO_TYPE_ID
+        closes_do = file_ast.current_scope is not None and file_ast.current_scope.get_type() == DO_TYPE_ID
         info = None
         if match is not None:
             bare = match.group(1) is None
@@ -44,7 +55,7 @@ def recording():
                 ends = [n for n in EREG_NAMES if getattr(F, n).match(rest) is not None]
             info = (bare, ends)
         r = o_end(self, line, ln, file_ast, match)
-        rec["events"].append(("end", ln, info, r))
+        rec["events"].append(("end", ln, info, r, rec.get("label") if closes_do else None))
         return r
     wrap(FF, "parse_end_scope_word", w_end)
     o_lab = FF.parse_do_fixed_format
@@ -117,6 +128,7 @@ def recording():
     finally:
         for (cls, name), fn in orig.items():
             setattr(cls, name, fn)
+        P.strip_line_label = rec["_restore_strip"]
 
 
 def tokens_of(events):
@@ -128,10 +140,13 @@ def tokens_of(events):
         ev = events[i]
         k = ev[0]
         if k == "end":
-            _, ln, info, closed = ev
+            _, ln, info, closed, do_label = ev
             if info is not None:
                 bare, ends = info
-                toks.append((ln, "(TEnd %s %s)" % ("true" if bare else "false", clist(ends, lambda e: EREG_COQ[e])), ("end", bare, ends)))
+                if do_label is not None:
+                    toks.append((ln, "(TEndDo %s %s %s)" % ("true" if bare else "false", clist(ends, lambda e: EREG_COQ[e]), cstr(do_label)), ("enddo", bare, ends, do_label)))
+                else:
+                    toks.append((ln, "(TEnd %s %s)" % ("true" if bare else "false", clist(ends, lambda e: EREG_COQ[e])), ("end", bare, ends)))
             i += 1
         elif k == "label":
             _, ln, lbl, closed = ev
